@@ -19,6 +19,7 @@ RULE = ('(a) bounded complete sweep: for each base scenario (transport x timeout
 
 ASSUME = ['complete writes on blocking descriptors; peer death latency (descriptors closed -> reapable) <= 20 ms',
           'pty output queued before the slave closes stays readable by the master (Linux behaviour, calibrated)',
+          'exceptions from outside (Ctrl-C, a raising signal handler) are injected only where the code under test really waits (select, poll, recv, sleep, a blocking waitpid): between two arbitrary bytecodes no code can promise anything and nothing is judged there',
           'kernel stub rules (simpex/kernel.py) match Linux for what pexpect observes']
 
 
